@@ -124,6 +124,61 @@ class Interleaved(Harness):
         return Outcome("encoded" if r1[0] == "ok" else "refused", ok, {"first": r1[1], "again": r2[1], "fresh": r3[1]})
 
 
+# two labels assembled from the SAME container objects (a shallow copy, labels built from common parts)
+LAYOUTS = ("k,g", "o,g", "g,h", "k,g,o", "g", "o(g)", "h,o,g", "k,h")
+
+
+class Shared(Harness):
+    """repeatability across labels that share containers: ONE encoder instance dumps label A, then label B, then A
+    again; A and B are solver-chosen layouts over the same group/object instances.  Every text equals what a fresh
+    encoder writes for that label"""
+    prop = "C13"
+    alphabet = "ascii"
+    functions = ("pvl.encoder.*Encoder.encode", "pvl.encoder.PDSLabelEncoder.encode (group conversion)",
+                 "pvl.encoder.PDSLabelEncoder.encode_aggregation_block", "pvl.encoder.PDSLabelEncoder.is_PDSgroup")
+    must_reach = ("encoded",)
+
+    @property
+    def bounds(self):
+        return ("encoder %s (one instance), labels A, B, A where A and B are chosen by the solver out of the %d layouts %s over "
+                "shared instances (k parameter, g and h groups, o object, o(g) the object holding g); one symbolic "
+                "character in g" % (self.dialect, len(LAYOUTS), list(LAYOUTS)))
+
+    def inputs(self, ctx):
+        from .c10 import pick
+        return {"a": pick(ctx, "a", 0, len(LAYOUTS) - 1), "b": pick(ctx, "b", 0, len(LAYOUTS) - 1),
+                "x": rt.leaf_inputs(ctx, "str", 1, self.dialect)}
+
+    def prop_fn(self, L, inp):
+        from .common import dialect
+        c = rt.C(L)
+        g = c.G([("a", inp["x"]), ("n", 1)])
+        h = c.G([("b", 2)])
+        parts = {"k": ("k", 0), "g": ("g", g), "h": ("h", h), "o": ("o", c.O([("c", 3)])), "o(g)": ("o", c.O([("c", 3), ("g", g)]))}
+
+        def label(i):
+            return c.M([parts[p] for p in LAYOUTS[i].split(",")])
+        mods = [label(inp["a"]), label(inp["b"])]
+        mods.append(mods[0])
+        E = dialect(L, self.dialect)["encoder"]()
+
+        def enc(E, m):
+            try:
+                return ("ok", E.encode(m))
+            except ValueError:
+                return ("ValueError", None)
+            except TypeError:
+                return ("TypeError", None)
+        snaps = [rt.snapshot(m) for m in mods]
+        got = [enc(E, m) for m in mods]
+        fresh = [enc(dialect(L, self.dialect)["encoder"](), m) for m in mods]
+        conds = []
+        for (t1, x1), (t2, x2) in zip(got, fresh):
+            conds.append(t1 == t2 and (x1 is None or str_eq(x1, x2)))
+        conds += [snap_eq(s, rt.snapshot(m), self.dialect == "PDS3") is not False for s, m in zip(snaps, mods)]
+        return Outcome("encoded", zand(conds), {"one_instance": [x for _, x in got], "fresh_instances": [x for _, x in fresh]})
+
+
 def obligations(tier):
     obs = []
     nmax = 1 if tier == "quick" else 2
@@ -143,6 +198,8 @@ def obligations(tier):
         for b in ("PVL", "ODL", "PDS3", "ISIS"):
             if a != b:
                 obs.append(Interleaved(a=a, b=b))
+    for dia in ("PVL", "ODL", "PDS3", "ISIS"):
+        obs.append(Shared(dialect=dia))
     return obs
 
 
